@@ -11,6 +11,7 @@ is the conjunction/disjunction of its operands).  `leafSpec_distinct_names`… d
 fragments; the full statement is false of code and model (`C07_full_statement_false`).
 -/
 import PoetryVerif.Proofs.MarkerAlgSoundOps
+import PoetryVerif.Proofs.MarkerAlgSoundStr
 
 set_option linter.unusedSimpArgs false
 set_option linter.unusedVariables false
@@ -142,6 +143,44 @@ theorem any_always_true_partial (S : LeafSpec (leafEval E) G) {a b r : M} (ha : 
   have := (mUnion_sound S ha hb h).2
   unfold holds; rw [← this]; exact M.isAny_sem he
 
+/-! ### Discharging the leaf facts: the string fragment (through C16's exactness theorems) -/
+
+/-- **The leaf facts hold on the string fragment**: for leaves over plain string variables (`sys_platform`,
+`os_name`, `platform_machine`, … — not `extra`, not `python_version`/`python_full_version`) carrying a
+`==`/`!=` atom, or an `AtomicMultiMarker`/`AtomicMarkerUnion` over such atoms, in every environment that
+defines the variable: marker equality implies equal truth, and every outcome of `_merge_single_markers`
+(Empty, Any, one of the operands, a new `SingleMarker`, an atomic multi/union marker) is the exact
+conjunction/disjunction.  Uses the exactness of the string-constraint algebra (C16).  Remaining hypothesis:
+`MkAtomOK` — the constructor `SingleMarker(name, str(atom))` stores that atom again. -/
+theorem leafSpec_string_partial (H : MkAtomOK E) : LeafSpec (leafEval E) (StrLeaf E) := leafSpec_str H
+
+/-- …and so intersection and union are sound on the whole string fragment, for every fuel and stack. -/
+theorem intersect_union_sound_string_partial (H : MkAtomOK E) {a b r : M}
+    (ha : M.Good (StrLeaf E) a) (hb : M.Good (StrLeaf E) b) :
+    (mIntersect fuel stk a b = .ok r → M.validate E r = .ok (holds E a && holds E b)) ∧
+    (mUnion fuel stk a b = .ok r → M.validate E r = .ok (holds E a || holds E b)) :=
+  ⟨fun h => (intersect_sound_partial (leafSpec_str H) (fun l hl => strLeaf_evaluable hl) ha hb h).2.2,
+   fun h => (union_sound_partial (leafSpec_str H) (fun l hl => strLeaf_evaluable hl) ha hb h).2.2⟩
+
+/-- the fragment is inhabited by what the parser builds, and the constructor fact holds on such atoms -/
+example : StrLeaf Ex.envAB (.single Ex.sA) ∧ StrLeaf Ex.envAB (.single Ex.sNA) ∧ StrLeaf Ex.envAB (.single Ex.sB) ∧
+    mkSingleOfC "sys_platform" (.gen (.s (.atom ⟨"linux", .ne, false⟩))) =
+      .ok ⟨"sys_platform", "!=", "linux", false, .gen (.s (.atom ⟨"linux", .ne, false⟩))⟩ ∧
+    mkSingleOfC "os_name" (.gen (.s (.atom ⟨"nt", .eq, false⟩))) =
+      .ok ⟨"os_name", "==", "nt", false, .gen (.s (.atom ⟨"nt", .eq, false⟩))⟩ := by
+  refine ⟨?_, ?_, ?_, rfl, rfl⟩
+  · exact ⟨rfl, rfl, ⟨"a", rfl⟩, rfl, ⟨"a", .eq, false⟩, rfl, rfl, rfl, rfl, rfl⟩
+  · exact ⟨rfl, rfl, ⟨"a", rfl⟩, rfl, ⟨"a", .ne, false⟩, rfl, rfl, rfl, rfl, rfl⟩
+  · exact ⟨rfl, rfl, ⟨"c", rfl⟩, rfl, ⟨"b", .ne, false⟩, rfl, rfl, rfl, rfl, rfl⟩
+
+/-- the leaf facts that remain hypotheses outside the string fragment, as one visible statement:
+version-like variables (through C05's exactness on regular probes), the
+`python_version`/`python_full_version` pairing, `extra`, and `in`/`not in` atoms (false there:
+`union_notin_notin_counterexample`) -/
+def C07_leaf_facts_full_statement : Prop :=
+  ∀ E : Env, ∃ G : Leaf → Prop, (∀ l, ParsedLeaf l → (∃ b, l.validate E = .ok b) → G l) ∧
+    LeafSpec (leafEval E) G ∧ LeafInvertSound (leafEval E) G
+
 /-! ### What is false of the code (the model mirrors it): the known finding `notin-union-notin-any` -/
 
 def sTegra : Single := ⟨"platform_release", "not in", "tegra", true, .gen (.s (.atom ⟨"tegra", .nc, false⟩))⟩
@@ -181,5 +220,22 @@ theorem C07_full_statement_false : ¬ C07_full_statement := by
     have := holds_is_validate _ _ ev2; rw [h5] at this; exact (Except.ok.inj this).symm
   rw [ha, hb] at this
   exact absurd (Except.ok.inj this) (by decide)
+
+/-- …and so is the statement that the leaf facts hold for all parser-built leaves -/
+theorem C07_leaf_facts_full_statement_false : ¬ C07_leaf_facts_full_statement := by
+  intro h
+  obtain ⟨G, hG, S, _⟩ := h envTegraRpi
+  obtain ⟨h1, h2, _, h4, h5, _⟩ := union_notin_notin_counterexample
+  have g1 : G (.single sTegra) := hG _ ⟨_, _, _, _, h1, rfl⟩ ⟨false, h4⟩
+  have g2 : G (.single sRpi) := hG _ ⟨_, _, _, _, h2, rfl⟩ ⟨false, h5⟩
+  have e : (Generic.GC.s (.atom ⟨"tegra", .nc, false⟩)).unionWith (.s (.atom ⟨"rpi", .nc, false⟩)) =
+      .ok (.s .any) := rfl
+  have hm : mergeLeaves (.single sTegra) (.single sRpi) false = .ok (some .any) := by
+    marker_eval [sTegra, sRpi, e]
+  have := (S.merge _ _ false .any g1 g2 hm).2
+  have e1 : leafEval envTegraRpi (.single sTegra) = false := rfl
+  have e2 : leafEval envTegraRpi (.single sRpi) = false := rfl
+  rw [e1, e2] at this
+  simp at this
 
 end Poetry.C07
